@@ -259,7 +259,7 @@ def check(tier: str) -> Report:
                 D = 1000 if g["r"] < 0 else g["r"]
                 cfg = {"maxAtt": 2, "lim": {}, "maxUnk": -1, "D": D, "hasDefault": True, "strat": [],
                        "legacy": [], "budget": -1, "handler": False, "abort": False, "rc": False,
-                       "bsleep": False, "opname": False, "hooks": False}
+                       "bsleep": False, "opname": False, "hooks": False, "adaptive": []}
                 env = retryenv.Env(cfg, [{"e": "invoke", "out": "exc", "k": "RATE_LIMIT", "ra": g["h"], "dur": 0},
                                          {"e": "invoke", "out": "ok", "k": "-", "ra": -1, "dur": 0}])
                 import redress.policy as rp
